@@ -129,6 +129,10 @@ def model_properties_cases(tier):
             for variant in ("inline-required-only", "inline-with-props", "ref-then-required-only", "child-first",
                             "ref-parent-prop-required-by-child"):
                 out.append({"shape": "allof", "parent_prop": pn, "child_prop": cn, "variant": variant})
+    # two properties (possibly colliding after snake-casing) and a later allOf member that re-declares one of them
+    for n1, n2 in itertools.permutations(PROP_NAMES, 2):
+        for redo in (n1, n2):
+            out.append({"shape": "redeclare", "n1": n1, "n2": n2, "redo": redo})
     return out
 
 
@@ -137,6 +141,10 @@ def _model_doc(case):
     if case["shape"] == "plain":
         return _base(schemas={"M": {"type": "object", "properties": {n: s for n in case["names"]}, "required": case["required"]}}), \
             {"M": {n: (n in case["required"]) for n in case["names"]}}
+    if case["shape"] == "redeclare":
+        child = {"allOf": [{"type": "object", "properties": {case["n1"]: s, case["n2"]: s}},
+                           {"type": "object", "properties": {case["redo"]: {"type": "string", "format": "date-time"}}}]}
+        return _base(schemas={"Child": child}), {"Child": {case["n1"]: False, case["n2"]: False}}
     pn, cn, v = case["parent_prop"], case["child_prop"], case["variant"]
     parent = {"type": "object", "properties": {pn: s, "other": {"type": "integer"}}}
     expect = {pn: False, "other": False}
